@@ -249,10 +249,10 @@ type fsm struct {
 	up, down, open, close func()
 	recv                  func([]byte) error
 	state                 func() string
-	goodReq               []byte        // a Configure-Request this automaton acknowledges
-	timeout               func() bool   // the pending restart timer expires now (false: none pending)
+	goodReq               []byte          // a Configure-Request this automaton acknowledges
+	timeout               func() bool     // the pending restart timer expires now (false: none pending)
 	neg                   func() []string // labels of what the automaton remembers of the negotiation
-	sent                  [][]byte      // every packet the automaton sent (copies)
+	sent                  [][]byte        // every packet the automaton sent (copies)
 }
 
 func cpPkt(code, id byte, body []byte) []byte {
@@ -615,6 +615,8 @@ func authHistory(a *pppoe.Authenticator, proto uint16, sel []byte, sent *[][]byt
 	if proto == pppoe.ProtocolCHAP && a.GetState() == pppoe.AuthStateSuccess {
 		for k := int(sel[4] & 3); k > 0; k-- {
 			_ = a.SendReauthChallenge() // periodic re-authentication: a new challenge is outstanding in state Success
+		}
+		if sel[4]&3 != 0 {
 			c.class("history:reauth-challenge-outstanding")
 		}
 	}
